@@ -3001,7 +3001,8 @@ class QuaternionArray(np.ndarray):
                 raise ValueError("The number of weights do not match the number of quaternions.")
             q *= weights[:, None]
         eigvals, eigvecs = np.linalg.eig(q.T@q)
-        q_avg = eigvecs[:, eigvals.argmax()]
+        # The accumulator is symmetric: its eigen-pairs are real (drop the complex dtype)
+        q_avg = np.real(eigvecs[:, np.real(eigvals).argmax()])
         if self.scalar_vector:
             return q_avg
         return np.roll(q_avg, -1)
